@@ -252,3 +252,97 @@ Proof.
   pose proof (reflex_loop_eof (S (List.length text)) text bb (mkRstate false None [] 0) [] []) as H.
   destruct (reflex_loop _ _ _ _ _ _) as [[toks errs] st]. exact H.
 Qed.
+
+(** ** errors: reported in source order, inside the text *)
+Definition errs_of (x : list rtok * list rerr * N * rstate) : list rerr := snd (fst (fst x)).
+
+Lemma firstn_len_all (l : list char) : firstn (N.to_nat (len l)) l = l.
+Proof. unfold len. rewrite Nnat.Nat2N.id. apply firstn_all. Qed.
+
+(** every error of a lexeme sits at one offset between the start of the lexeme and its end *)
+Lemma lexeme_err_chain l pos st :
+  l <> [] ->
+  exists e, pos <= e <= pos + blen (firstn (N.to_nat (len_of (lexeme l pos st))) l) /\
+            Forall (fun x => re_byte x = e) (errs_of (lexeme l pos st)).
+Proof.
+  intros Hne. unfold lexeme. destruct l as [|c r]; [contradiction|]. cbv zeta.
+  assert (None_ : forall ts n st', exists e, pos <= e <= pos + blen (firstn (N.to_nat (len_of (ts, [], n, st'))) (c :: r)) /\
+            Forall (fun x => re_byte x = e) (errs_of (ts, @nil rerr, n, st'))).
+  { intros. exists pos. split; [lia|constructor]. }
+  destruct (is_whitespace c); [apply None_|].
+  destruct ((c =? c_squote) || (c =? c_dquote)).
+  { destruct (scan_quoted c r 1 [] false) as [[[n closed] val] esc].
+    destruct (negb closed).
+    - destruct (if esc then push_lit st val else (st, PNone)). unfold errs_of, len_of. cbn [fst snd].
+      eexists. split; [|repeat constructor]. cbn [re_byte]. lia.
+    - destruct (suffix_of _) as [ty extra].
+      destruct (tt_eqb ty T_HexStringLiteral).
+      + destruct (parse_sas_hex_string _) as [v|e].
+        * destruct (push_lit st v). apply None_.
+        * destruct (if esc then push_lit st val else (st, PNone)). unfold errs_of, len_of. cbn [fst snd].
+          eexists. split; [|repeat constructor]. cbn [re_byte]. lia.
+      + destruct (if esc then push_lit st val else (st, PNone)). apply None_. }
+  destruct (c =? c_semi); [apply None_|].
+  destruct (c =? c_slash).
+  { destruct (_ =? c_star); [|apply None_]. destruct (find_comment_end _ _); [apply None_|].
+    unfold errs_of, len_of. cbn [fst snd]. exists (pos + blen (c :: r)). rewrite firstn_len_all. split; [lia|repeat constructor]. }
+  destruct (c =? c_amp); [apply None_|].
+  destruct (c =? c_pct); [apply None_|].
+  destruct (is_ascii_digit c || _).
+  { destruct (numeric_literal (c :: r)) as [[[ty pl] n] errs]. unfold errs_of, len_of. cbn [fst snd].
+    exists (pos + blen (firstn (N.to_nat n) (c :: r))). split; [lia|].
+    induction errs as [|e es IHe]; cbn [map]; constructor; [reflexivity|exact IHe]. }
+  destruct (is_valid_unicode_sas_name_start c).
+  { destruct (negb _ || _); [apply None_|].
+    destruct (parse_keyword _); [apply None_|].
+    destruct (assoc_chars _ _) as [four|]; [|apply None_].
+    match goal with |- context [match ?x with Some _ => _ | None => _ end] => destruct x as [k|] end; [|apply None_].
+    destruct (datalines_data _ _ _) as [dn found].
+    unfold errs_of, len_of. cbn [fst snd].
+    set (n := len (take_while ident_char (c :: r))). set (l := c :: r).
+    set (tn := if found then N.of_nat (if four then 4%nat else 1%nat) else count_semis_upto (if four then 4%nat else 1%nat) (skipn_N (N.to_nat dn) (skipn_N (N.to_nat (n + k)) l))).
+    exists (pos + blen (firstn (N.to_nat (n + k)) l) + blen (firstn (N.to_nat dn) (skipn_N (N.to_nat (n + k)) l))).
+    split.
+    - replace (N.to_nat (n + k + dn + tn)) with ((N.to_nat (n + k) + N.to_nat dn) + N.to_nat tn)%nat by lia.
+      rewrite !blen_firstn_add. lia.
+    - destruct found; repeat constructor. }
+  repeat match goal with
+         | |- context [if ?b then _ else _] => destruct b
+         | |- context [match charformat_len ?x with _ => _ end] => destruct (charformat_len x)
+         | |- context [match sym1 ?x with _ => _ end] => destruct (sym1 x)
+         end; apply None_.
+Qed.
+
+Lemma same_offset_chain (es : list rerr) e : forall lo hi, lo <= e <= hi -> Forall (fun x => re_byte x = e) es -> chain lo hi (map re_byte es).
+Proof.
+  induction es as [|x xs IH]; intros lo hi He Hall; cbn [map chain]; [lia|].
+  inversion Hall; subst. split; [lia|]. apply IH; [lia|assumption].
+Qed.
+
+Lemma reflex_loop_err_chain : forall fuel l pos st toks errs lo,
+  chain lo pos (map re_byte (rev errs)) ->
+  let '(_, E, _) := reflex_loop fuel l pos st toks errs in chain lo (pos + blen l) (map re_byte E).
+Proof.
+  induction fuel as [|f IH]; intros l pos st toks errs lo H; cbn [reflex_loop].
+  - cbv beta iota zeta. eapply chain_widen; [exact H|lia].
+  - destruct l as [|c r]; [cbv beta iota zeta; eapply chain_widen; [exact H|lia]|].
+    destruct (lexeme_err_chain (c :: r) pos st ltac:(discriminate)) as (e & He & Hall).
+    destruct (lexeme (c :: r) pos st) as [[[ts es] n] st'] eqn:El. unfold errs_of, len_of in He, Hall. cbn [fst snd] in He, Hall.
+    specialize (IH (skipn_N (N.to_nat n) (c :: r)) (pos + blen (firstn (N.to_nat n) (c :: r))) st' (rev_append ts toks) (rev_append es errs) lo).
+    assert (Hrev : rev (rev_append es errs) = rev errs ++ es) by (rewrite rev_append_rev, rev_app_distr, rev_involutive; reflexivity).
+    rewrite Hrev, map_app in IH.
+    assert (Hes : chain pos (pos + blen (firstn (N.to_nat n) (c :: r))) (map re_byte es)) by exact (same_offset_chain es e _ _ He Hall).
+    specialize (IH (chain_app _ _ _ _ _ H Hes)).
+    destruct (reflex_loop f _ _ _ _ _) as [[T E] st2].
+    rewrite (blen_split (c :: r) (N.to_nat n)). rewrite N.add_assoc. exact IH.
+Qed.
+
+Theorem reflex_errors_ordered (src : list char) :
+  let '(bb, text) := match src with c :: r => if c =? 65279 then (utf8_len c, r) else (0, src) | [] => (0, src) end in
+  let '(_, E, _) := reflex src in chain bb (bb + blen text) (map re_byte E).
+Proof.
+  unfold reflex.
+  destruct (match src with c :: r => if c =? 65279 then (utf8_len c, r) else (0, src) | [] => (0, src) end) as [bb text].
+  pose proof (reflex_loop_err_chain (S (List.length text)) text bb (mkRstate false None [] 0) [] [] bb ltac:(cbn; lia)) as H.
+  destruct (reflex_loop _ _ _ _ _ _) as [[toks errs] st]. exact H.
+Qed.
